@@ -16,6 +16,9 @@ def map_re(pattern: str) -> str:
                 parts.append(r"(?:(?![\r\n])\P{Cs}|\p{Cs}\p{Cs})")
             else:
                 parts.append(ch)
+        elif ch in "^$" and not char_class:
+            # I-Regexp has no assertions: `^` and `$` are ordinary characters.
+            parts.append("\\" + ch)
         elif ch == "\\":
             escaped = True
             parts.append(ch)
